@@ -20,7 +20,8 @@ ENGINE = "simdisk"
 TIERS = {"quick": {"runs": 1500, "budget": 60.0, "cap": 120.0},
          "thorough": {"runs": 200000, "budget": 900.0, "cap": 300.0}}
 
-CONSUMERS = ["dynamics", "correlations", "gradient", "pt_tebd"]
+CONSUMERS = ["dynamics", "correlations", "gradient", "pt_tebd", "with_field",
+             "multi_env", "correlations_nt"]
 FILES = ["a.hdf5", "b.hdf5", "c.hdf5"]
 
 
@@ -55,8 +56,20 @@ def gen_case(rng, tier="quick"):
     ops.append(["build", gen_spec(rng)])
     for _ in range(nops):
         k = _pick(rng, ["build", "export", "restart", "import", "use",
-                        "close", "ptt_file", "reexport"],
-                  [2, 4, 1, 5, 5, 1, 2, 1])
+                        "close", "ptt_file", "reexport", "roundtrip"],
+                  [2, 3, 1, 3, 4, 1, 2, 1, 5])
+        if k == "roundtrip":
+            # export -> (restart) -> import -> use the imported object:
+            # plain operations, so the history stays shrinkable
+            f = rng.randrange(3)
+            ops.append(["export", rng.randrange(8), f, True])
+            if rng.random() < 0.3:
+                ops.append(["restart"])
+            ops.append(["import", f, _pick(rng, ["file", "simple", None],
+                                           [3, 3, 1])])
+            for _ in range(rng.randrange(1, 3)):
+                ops.append(["use", -1, _pick(rng, CONSUMERS)])
+            continue
         if k == "build":
             ops.append(["build", gen_spec(rng)])
         elif k == "export":
@@ -174,6 +187,36 @@ def consume(kind, pt):
             process_tensors=[pt], parameters=params, progress_type="silent")
         return np.concatenate([np.array(res["gradient"]).ravel(),
                                np.array(res["final_state"]).ravel()])
+    if kind == "with_field":
+        def hamf(t, a):
+            return h * (1.0 + 0.1 * t) + 0.2 * (a * np.eye(d, k=1)
+                                                  + np.conj(a) * np.eye(d, k=-1))
+
+        def eom(t, states, a):
+            return -0.3 * a - 0.1j * np.trace(states[0] @ np.eye(d, k=1))
+        mfs = oqupy.MeanFieldSystem(
+            [oqupy.TimeDependentSystemWithField(hamf)], eom)
+        dyn = oqupy.compute_dynamics_with_field(
+            mfs, 0.5 + 0.2j, process_tensor_list=[pt],
+            initial_state_list=[rho], subdiv_limit=None,
+            progress_type="silent", **dt_kw)
+        return np.concatenate([
+            np.array(dyn.system_dynamics[0].states).ravel(),
+            np.array(dyn.fields).ravel()])
+    if kind == "multi_env":
+        # the tensor under test next to an identical second environment
+        dyn = oqupy.compute_dynamics(oqupy.System(h), rho,
+                                     process_tensor=[pt, pt],
+                                     progress_type="silent", **dt_kw)
+        return np.array(dyn.states)
+    if kind == "correlations_nt":
+        a = rng.normal(size=(d, d))
+        _, corr = oqupy.compute_correlations_nt(
+            oqupy.System(h), pt, [a, a.T, a],
+            ops_times=[0, slice(0, min(n, 2) + 1), slice(0, n + 1)],
+            ops_order=["left", "right", "left"], initial_state=rho,
+            progress_type="silent", **dt_kw)
+        return np.nan_to_num(np.array(corr), nan=-7.0)
     if kind == "pt_tebd":
         chain = oqupy.SystemChain([d, d])
         chain.add_site_hamiltonian(0, h)
